@@ -6,6 +6,7 @@ pipeline theorems below are over `verifyAux` (InToto/Model/Verify.lean), one lev
 -/
 import InToto.Model.Expiry
 import InToto.Proofs.PipeSigs
+import InToto.Generated.Facts
 
 namespace InToto.C06
 open InToto InToto.Expiry
@@ -68,5 +69,8 @@ theorem grammar_examples :
     (parseExpiry (lit% "1970-01-01T00:00:00Z")).map Stamp.unixNanos = some 0 ∧
     (parseExpiry (lit% "2001-09-09T01:46:40Z")).map Stamp.unixNanos = some 1000000000000000000 := by
   decide
+
+/-- fact regenerated from the source on every run: the one date layout that is parsed -/
+theorem facts_date_layout : Generated.constISO8601DateSchema = lit% "2006-01-02T15:04:05Z" := by decide
 
 end InToto.C06
